@@ -1,6 +1,7 @@
 import FrappyProofs.Lemmas.Update
 import FrappyProofs.Lemmas.UpdateSys
 import FrappyProofs.Lemmas.UpdateAct
+import FrappyProofs.Lemmas.UpdateCanon
 import FrappyModel.Generated.C05
 /-
 C05 — property theorems (nothing but property theorems and their non-vacuity examples).
@@ -635,6 +636,38 @@ theorem do_request_coherent (c : Cfg V E) (ex : V → X) (h : ExportExact c.o ex
   refine ⟨fun hf => ?_, h3 p, fun hs hfree => activation_coherent c ex h init progs clock s hn hr k p hs hfree⟩
   rw [h2 t hf, hprog, annR_doOps]
 
+/-! ### the same under the hypothesis that is tested on every case
+
+`ExportExact` (ALL values `!=` does not tell apart export identically) is false for raw values of several datatypes
+(`-0.0`/`0.0`, `1`/`True`).  Only canonical values — results of the datatype — ever reach the cache or the comparison
+(`CanonSys`, an invariant of the small-step system), so the system with the comparison restricted to canonical values
+makes exactly the same steps (`reach_restrict`) and the law is needed on canonical values only. -/
+
+theorem activation_coherent_canonical (c : Cfg V E) (ex : V → X) (canon : V → Bool) (h : CanonExact c.o ex canon)
+    (init : Pid → Entry V E) (progs : Tid → List (Op V E)) (clock : Int) (s : Sys V E) (hn : c.conns.Nodup)
+    (hi : ∀ p, canon (init p).value = true) (hp : ∀ t, progCanon c.o canon (progs t))
+    (hr : Reach c (Sys.init init progs clock c.act0) s) (k : Cid) (p : Pid) (hk : Sub c s k p)
+    (hfree : ∀ t, pcPid (s.thr t).pc ≠ some p) :
+    replayO (known0 c ex init k p) ((plog s k p).map (fun m => m.ve.map ex)) = some ((s.entries p).ve.map ex) := by
+  obtain ⟨hr', _⟩ := reach_restrict (canon := canon) (canon_init c.o canon init progs clock c.act0 hi hp) hr
+  exact activation_coherent (restrictC c canon) ex (restrictO_exact c.o ex canon h) init progs clock s hn hr' k p hk hfree
+
+theorem conc_ok_activation_canonical (c : Cfg V E) (ex : V → X) (canon : V → Bool) (h : CanonExact c.o ex canon)
+    (init : Pid → Entry V E) (progs : Tid → List (Op V E)) (clock : Int) (s : Sys V E) (hn : c.conns.Nodup)
+    (hi : ∀ p, canon (init p).value = true) (hp : ∀ t, progCanon c.o canon (progs t))
+    (hr : Reach c (Sys.init init progs clock c.act0) s) (hq : s.lock = none) (p : Pid) :
+    ConcOkA (S := VE X E) ⟨c.conns.map (fun k => ⟨known0 c ex init k p, c.act0 k p || s.snapped k p,
+        c.act0 k p && !s.snapped k p, (s.logs k p).map (fun d => ⟨d.msg.ve.map ex, d.seen.map ex⟩)⟩),
+      (s.entries p).ve.map ex⟩ := by
+  obtain ⟨hr', _⟩ := reach_restrict (canon := canon) (canon_init c.o canon init progs clock c.act0 hi hp) hr
+  exact conc_ok_activation (restrictC c canon) ex (restrictO_exact c.o ex canon h) init progs clock s hn hr' hq p
+
+/-- and the cache never holds anything but canonical values -/
+theorem cache_canonical (c : Cfg V E) (canon : V → Bool) (init : Pid → Entry V E) (progs : Tid → List (Op V E))
+    (clock : Int) (s : Sys V E) (hi : ∀ p, canon (init p).value = true) (hp : ∀ t, progCanon c.o canon (progs t))
+    (hr : Reach c (Sys.init init progs clock c.act0) s) (p : Pid) : canon (s.entries p).value = true :=
+  (reach_restrict (canon := canon) (canon_init c.o canon init progs clock c.act0 hi hp) hr).2.ent p
+
 end concurrent
 
 /-- Facts about the constants of the source the model relies on (regenerated from the repository on every
@@ -830,6 +863,24 @@ example : exCanon (⟨4, none, 100, 10⟩ : Entry Nat Nat).value = true ∧
   subst hv; rfl
 example : (run exOC ⟨4, none, 100, 10⟩ exHistC).msgs.map (·.ve) = [.val 6] ∧
     (run exOC ⟨4, none, 100, 10⟩ exHistC).entry.ve = .val 6 := by decide
+
+/-- two threads assign 5 and 7 (stored as 4 and 6) over the oracle that is exact on canonical values only -/
+def exCfgC : Cfg Nat Nat := ⟨exOC, [1, 2], 1, fun _ _ => true⟩
+def exProgsC : Tid → List (Op Nat Nat)
+  | 0 => [.announce 0 (assignEv 5) .absent]
+  | 1 => [.announce 0 (assignEv 7) .absent]
+  | _ => []
+def exInitC : Pid → Entry Nat Nat := fun _ => ⟨4, none, 100, 10⟩
+example : (∀ p, exCanon (exInitC p).value = true) ∧ (∀ t, progCanon exOC exCanon (exProgsC t)) := by
+  refine ⟨fun _ => by simp [exInitC, exCanon], fun t p ev ts hm => ?_⟩
+  match t with
+  | 0 => simp only [exProgsC, List.mem_singleton, Op.announce.injEq] at hm; obtain ⟨_, rfl, _⟩ := hm; exact rfl
+  | 1 => simp only [exProgsC, List.mem_singleton, Op.announce.injEq] at hm; obtain ⟨_, rfl, _⟩ := hm; exact rfl
+  | _ + 2 => simp [exProgsC] at hm
+/-- the first assignment (5, stored as 4 = the cached value) is suppressed inside the window, the second announced -/
+example : (runSched exCfgC (Sys.init exInitC exProgsC 101 exCfgC.act0)
+    (List.replicate 6 0 ++ List.replicate 13 1)).map (fun s => ((s.logs 1 0).map (·.msg.ve), (s.entries 0).ve)) =
+    some ([.val 6], .val 6) := by decide
 
 /-! ### a comparison with a tolerance; requests through the dispatcher -/
 
